@@ -109,7 +109,8 @@ def _run_main(ctx):
                 if nd.get('k') == 'Struct' and H.res_path(nd['res']) == 'serialize::SealableOutputBuffer':
                     fv = dict((n_, H.term(e_)) for n_, e_ in nd['fields'])
                     lits.append((ctx.owner(p), fv.get('buf'), fv.get('sealed')))
-        r.check('constructed-unsealed', lits == [(SB + 'new', 'buf', 'false')], None, built=lits, expected='only SealableOutputBuffer::new builds one: {buf: buf, sealed: false}')
+        prm0 = [q.get('name') for q in (ctx.fn(SB + 'new') or {}).get('params', [])][:1] if ctx.has_fn(SB + 'new') else []   # whatever the parameter is called
+        r.check('constructed-unsealed', len(prm0) == 1 and lits == [(SB + 'new', prm0[0], 'false')], None, built=lits, expected='only SealableOutputBuffer::new builds one: {buf: <its parameter>, sealed: false}')
         # ... and the sealed buffer is never swapped for a fresh (unsealed) one: one constructor call, no whole-value overwrite
         A.unique_callers(ctx, r, 'new:callers', SB + 'new', ['io_loop::Inner::new'], why='a second SealableOutputBuffer would start unsealed')
         over = []
